@@ -44,6 +44,7 @@ const (
 // Config is the per-run configuration of a simulation.
 type Config struct {
 	GOMAXPROCS int
+	NumCPU     int // what runtime.NumCPU reports (0 = the same as GOMAXPROCS)
 	Policy     Policy
 	StickyN    int // PolicySticky: switch away with probability 1/StickyN (default 8)
 	PCTDepth   int // PolicyPCT: number of priority change points
@@ -785,5 +786,18 @@ func GOMAXPROCS(n int) int {
 	return s.cfg.GOMAXPROCS
 }
 
-// NumCPU returns the simulated GOMAXPROCS.
-func NumCPU() int { return GOMAXPROCS(0) }
+// NumCPU returns the simulated number of CPUs: Config.NumCPU, or the
+// simulated GOMAXPROCS when that is zero. The two are independent on a real
+// machine (GOMAXPROCS may be set below or above the CPU count).
+//
+//go:norace
+func NumCPU() int {
+	s := theSim
+	if s == nil {
+		return 1
+	}
+	if s.cfg.NumCPU > 0 {
+		return s.cfg.NumCPU
+	}
+	return s.cfg.GOMAXPROCS
+}
